@@ -655,7 +655,7 @@ def gen_module_program(rng, moddir, stream="main"):
             pieces.append("(bump!)\n" + obs())
     else:
         pieces.append(obs() + "\n" + _mod_expr(rng, 2, [], allf + mine))
-    return {"pieces": pieces, "k02c": k02c}
+    return {"pieces": pieces, "k02c": k02c, "sources": text1 + "\n" + text2}
 
 
 # ------------------------------------------------------------------------------------------------------
